@@ -32,4 +32,6 @@ func (dv *Router) VerifAdvertSeq() uint64 {
 
 // VerifAdvertDataOnInterest delivers an Advertisement Data Interest (as the engine does for the
 // advertisement data prefix): the router answers with its current advertisement.
-func (dv *Router) VerifAdvertDataOnInterest(args ndn.InterestHandlerArgs) { dv.advertDataOnInterest(args) }
+func (dv *Router) VerifAdvertDataOnInterest(args ndn.InterestHandlerArgs) {
+	dv.advertDataOnInterest(args)
+}
